@@ -43,6 +43,13 @@ def ofHex (s : String) : Option Bytes :=
 def toHexWire (bs : Bytes) : String :=
   if bs.isEmpty then "-" else toHex bs
 
+/-- lexicographic order on byte strings (Go's `<` on strings, `sort.Strings`) -/
+def lt : Bytes → Bytes → Bool
+  | [], [] => false
+  | [], _ :: _ => true
+  | _ :: _, [] => false
+  | a :: as, b :: bs => a < b || (a == b && lt as bs)
+
 def ofString (s : String) : Bytes := s.toUTF8.toList
 
 /-- lossy, for diagnostics only -/
